@@ -1,7 +1,7 @@
 """C18 - environment variables are a fallback below the command line."""
 from vlib import *
 import defs as D, cmdline_sig
-from cmdline_check import run_cmdline_property
+from cmdline_check import run_cmdline_property, merge_cov
 
 
 def families(tier):
@@ -62,9 +62,29 @@ def run(v):
         d["alpha"]["envvals"] = ["UNSET", "1", "x", "3", "%FF"]
     cov = run_cmdline_property(v, families(v.tier), "MC_CmdLine_design.cfg", signature=sig, enrich=enrich,
                                driver={"defs": big, "n": 15000 if v.tier == "quick" else 200000, "maxlen": 8, "mutate": 0.5})
+    # environment-backed items inside the branches of a choice (GroupLine engine)
+    q = v.tier == "quick"
+    gfam = D.alt_env_family(SEED + 185, 16 if q else 80, maxlen=2 if q else 3, budget=1500 if q else 12000)
+    def gsig(m):
+        """F18: a member of one branch is absent from the line, its variable holds a value that fails conversion or
+        the guard, and the run succeeds through another branch instead of failing"""
+        s = cmdline_sig.signature(m)
+        env = m.get("env") or {}
+        d = m.get("def_full") or {}
+        typed = {x.get("s") for x in m.get("line", [])}
+        if isinstance(d, dict) and s["expect"] == "stderr" and s["got"] == "ok" and s.get("why") in ("conv", "guard"):
+            for f in d["named"]:
+                for it in (D.field_leaves(f) if f["kind"] == "alt" else []):
+                    if it["kind"] == "arg" and it["env"] and bad_for(it, env.get(it["env"])) and not (typed & set(it["shorts"] + it["longs"])):
+                        return {"rule": "invalid_env_value_masked_by_another_alternative"}
+        return s
+    gcov = run_cmdline_property(v, gfam, None, replay_cfg="MC_GroupLine_replay.cfg", module="MC_GroupLine", signature=gsig,
+                                enrich=enrich, trace_module="GroupLineTrace", name="C18g")
+    cov = merge_cov(cov, gcov, "groupline")
     cov["rule"] = ("env-backed switch/req_flag/argument under every arity x line {absent, once, twice, invalid} x variable state "
                    "{unset, valid, unconvertible, guard-failing, non-UTF-8}; every case also with an undeclared variable set; "
-                   "initial states of the TLC model range over all variable assignments")
+                   "initial states of the TLC model range over all variable assignments; the same items as members of the branches of a "
+                   "choice (bare/optional/many/some): the line beats the environment across alternatives")
     cov["exhaustive"] = True
     return v.finish("model_checking", cov, ["environment is set inside the single-threaded harness process around each run"])
 
